@@ -97,7 +97,7 @@ impl WithdrawalsBuilder {
     pub fn get_plutus_witnesses(&self) -> PlutusWitnesses {
         let tag = RedeemerTag::new_reward();
         let mut scripts = PlutusWitnesses::new();
-        for (i, (_, (_, script_wit))) in self.withdrawals.iter().enumerate() {
+        for (i, (_, (_, script_wit))) in self.in_ledger_order().into_iter().enumerate() {
             if let Some(ScriptWitnessType::PlutusScriptWitness(s)) = script_wit {
                 let index = BigNum::from(i);
                 scripts.add(&s.clone_with_redeemer_index_and_tag(&index, &tag));
@@ -175,10 +175,30 @@ impl WithdrawalsBuilder {
             .filter_map(|script_wit| script_wit.get_script_ref_input_with_size())
     }
 
+    // The ledger keeps withdrawals in a map ordered by reward account (network, then script-hash before
+    // key-hash credentials, then the hash) and a reward redeemer indexes that order, whatever the order
+    // of the calls was. Emit the withdrawals and number the redeemers in that order.
+    fn in_ledger_order(&self) -> Vec<(&RewardAddress, &(Coin, Option<ScriptWitnessType>))> {
+        fn ledger_order_key(address: &RewardAddress) -> (u8, u8, Vec<u8>) {
+            let cred = address.payment_cred();
+            match cred.to_scripthash() {
+                Some(hash) => (address.network_id(), 0, hash.to_bytes()),
+                None => (
+                    address.network_id(),
+                    1,
+                    cred.to_keyhash().map(|h| h.to_bytes()).unwrap_or_default(),
+                ),
+            }
+        }
+        let mut entries: Vec<_> = self.withdrawals.iter().collect();
+        entries.sort_by_key(|(address, _)| ledger_order_key(address));
+        entries
+    }
+
     pub fn build(&self) -> Withdrawals {
         let map = self
-            .withdrawals
-            .iter()
+            .in_ledger_order()
+            .into_iter()
             .map(|(k, (v, _))| (k.clone(), v.clone()))
             .collect();
         Withdrawals(map)
